@@ -29,7 +29,7 @@ for p in props:
             "text": m.get("claim", "Lean 4 theorems about the formal model (all inputs, unbounded), tied to /repo by the differential correspondence check and regenerated-fact obligations"),
             "design_ref": "DESIGN.md section 7 (%s)" % pid,
         },
-        "level_note": m.get("note", "Theorems are about the hand-written Lean model; model = code is differential evidence on the generated cases plus go/ast-extracted facts proved equal to the model's tables. Trusted: Lean kernel, standard axioms, harness/factgen/driver, modelled external libraries (see evidence trusted_base)."),
+        "level_note": m.get("note", "Theorems are about the hand-written Lean model; model = code is differential evidence on the generated cases plus facts extracted from the type-checked SSA form of the sources and proved equal to the model's tables. Trusted: Lean kernel, standard axioms, harness/factgen/driver, modelled external libraries (see evidence trusted_base)."),
         "technique": m.get("technique", "Lean 4 proof over a model + differential correspondence"),
     })
 manifest = {
